@@ -3,8 +3,11 @@ package main
 
 import (
 	"fmt"
+	"io"
 	"os"
 	"sort"
+
+	"github.com/dominant-strategies/go-quai/log"
 
 	"github.com/dominant-strategies/go-quai/verifshim/vx"
 )
@@ -14,6 +17,8 @@ var registry = map[string]vx.CheckSpec{}
 func register(s vx.CheckSpec) { registry[s.ID] = s }
 
 func main() {
+	// package log creates a global logger that lazily opens <cwd>/nodelogs/global.log: keep /repo clean
+	log.Global.SetOutput(io.Discard)
 	if len(os.Args) < 2 {
 		ids := []string{}
 		for k := range registry {
